@@ -90,6 +90,9 @@ Definition ledger_step (g : ledger) (o : op) (x : out) : ledger :=
   | DropRefresh cl, ODone =>
       {| g_reqs := g_reqs g; g_codes := g_codes g; g_used := g_used g; g_rts := g_rts g; g_rot := g_rot g;
          g_norefresh := cl :: g_norefresh g |}
+  | DropGrants cl, ODone =>
+      {| g_reqs := g_reqs g; g_codes := g_codes g; g_used := g_used g; g_rts := g_rts g; g_rot := g_rot g;
+         g_norefresh := cl :: ("*" ++ cl)%string :: g_norefresh g |}
   | RevokeRT n, ODone =>
       (* a token the storage revoked or let expire is dead (only tokens that were handed out count) *)
       {| g_reqs := g_reqs g; g_codes := g_codes g; g_used := g_used g; g_rts := g_rts g;
